@@ -30,7 +30,7 @@ CLAIMED = {
         "technique": "Coq proof (invariant over a rule-list parser model) + differential correspondence of the extracted model",
     },
     "C12": {
-        "text": ("22 theorems (Coq, no axioms) for all values, terms and oracle instances: each of the nine operators "
+        "text": ("30 theorems (Coq, no axioms) for all values, terms and oracle instances: each of the nine operators "
                  "of the Searches.search_matches model equals the documented typed rule (numeric equality for same-kind "
                  "numbers, case-insensitive boolean spellings, numeric ordering and false against non-numeric terms, "
                  "lexicographic text ordering, prefix/suffix/substring on the value's text, unanchored regex), never "
@@ -39,7 +39,15 @@ CLAIMED = {
                  "_refuted witness = known finding F12a).  The inversion clause is also stated over DOCUMENTS: the "
                  "candidate list is a Coq function of the document (SearchCands.v), the evaluator model's by_search "
                  "is proved to refine the loops on it, and C12_inversion_doc says that the inverted search yields "
-                 "exactly the candidates the plain one does not, in candidate order.  Tie: the complete operator x "
+                 "exactly the candidates the plain one does not, in candidate order.  The same is proved for EVERY "
+                 "data shape by_search is handed (SpecC12data.v: a list the evaluator built -- slice, Collector "
+                 "result -- is searched by the list loop and needs no guard; a NodeCoords is one candidate compared "
+                 "through the node it wraps; C12_inversion_data / _list_data / _coords_data / _data_dispatch), and "
+                 "C12_search_stream_data gives the stream of a search exactly however it ends: when a comparison "
+                 "raises, both searches raise the same exception at the same candidate k, the items yielded before "
+                 "it stay in the stream, and on the candidates before k the inverted search has yielded exactly "
+                 "those the plain one has not (C12_inversion_doc_raises / C12_inversion_data_raises).  Not covered: "
+                 "an exception out of the attribute path itself (not out of a comparison).  Tie: the complete operator x "
                  "haystack x needle grid (real ruamel-loaded scalars included); the loops through "
                  "Processor.get_nodes; the extracted candidate function against the harness's candidates and, "
                  "composed with the loops, against the real yields, on every run."),
